@@ -117,6 +117,22 @@ Definition set_utf8 (p : parser) (u : u8parser) : parser :=
   mkParser (pstate p) (intermediates p) (intermediate_idx p) (pparams p) (pparam p) (osc_raw p)
            (osc_params p) (osc_num_params p) (ignoring p) u.
 
+(* per-field setters (vocabulary of the function translator, tools/gen_fn_parser.py) *)
+Definition set_osc_raw (p : parser) (raw : list N) : parser := set_osc p raw (osc_params p) (osc_num_params p).
+Definition set_osc_params (p : parser) (ops : list (N * N)) : parser := set_osc p (osc_raw p) ops (osc_num_params p).
+Definition set_osc_num (p : parser) (n : N) : parser := set_osc p (osc_raw p) (osc_params p) n.
+Definition set_intermediates (p : parser) (i : list N) : parser := set_inter p i (intermediate_idx p).
+Definition set_intermediate_idx (p : parser) (idx : N) : parser := set_inter p (intermediates p) idx.
+Definition set_subparams (q : params) (l : list N) : params := mkParams l (pvals q) (current_subparams q) (plen q).
+Definition set_pvals (q : params) (l : list N) : params := mkParams (subparams q) l (current_subparams q) (plen q).
+Definition set_cursub (q : params) (n : N) : params := mkParams (subparams q) (pvals q) n (plen q).
+Definition set_plen (q : params) (n : N) : params := mkParams (subparams q) (pvals q) (current_subparams q) n.
+
+(* cfg(feature = "core"): the OSC buffer is an ArrayVec of capacity MAX_OSC_RAW *)
+Definition cfg_core (c : cfg) : bool := match osc_cap c with Some _ => true | None => false end.
+Definition raw_full (c : cfg) (raw : list N) : bool :=
+  match osc_cap c with Some cap => N.of_nat (length raw) =? cap | None => false end.
+
 (* fn intermediates(&self) -> &self.intermediates[..self.intermediate_idx] *)
 Definition intermediates_of (p : parser) : option (list N) :=
   slice (intermediates p) 0 (intermediate_idx p).
@@ -158,6 +174,13 @@ Definition osc_dispatch (p : parser) (b : N) : option (list event) :=
   else
     fields <- osc_slices (N.to_nat MAX_OSC_PARAMS) p 0 ;;
     Some [EOsc fields (b =? 7)].
+
+(* the same with the performer as an accumulator (calling convention of the translated code);
+   Parser::osc_dispatch itself is unsafe pointer code and stays hand-modelled (token-pinned) *)
+Definition osc_dispatch_acc (p : parser) (perf : list event) (b : N) : option (list event) :=
+  ev <- osc_dispatch p b ;; Some (perf ++ ev).
+(* CharAccumulator::add as a method: new accumulator and the completed character, if any *)
+Definition char_add_m (c : cfg) (u : u8parser) (b : N) : option (u8parser * option N) := char_add c u b.
 
 (* CsiDispatch / Hook share the finalisation of the parameter list *)
 Definition finish_params (p : parser) : option parser :=
